@@ -9,8 +9,9 @@ package node
 // restart / purge path.  Two things can be armed, by environment at process start or at
 // run time through VerifArmCrash / VerifArmHold (verif_export_node.go):
 //
-//   crash  VERIF_CRASH=<name>:<k>             the k-th hit of <name> (counted from arming)
+//   crash  VERIF_CRASH=<name>:<k>[:<ms>]      the k-th hit of <name> (counted from arming)
 //                                             reports "DIED <name> <k>" and SIGKILLs the process
+//                                             (after blocking the calling goroutine for <ms> ms)
 //   hold   VERIF_HOLD=<name>:<k>:<rel>:<j>    the k-th hit of <name> reports "HELD <name> <k>" and
 //                                             blocks the calling goroutine until hook <rel> has been
 //                                             passed j more times (empty <rel>: for ever)
@@ -24,6 +25,7 @@ import (
 	"strings"
 	"sync"
 	"syscall"
+	"time"
 
 	"github.com/youzan/ZanRedisDB/pkg/fileutil"
 )
@@ -33,8 +35,9 @@ type verifState struct {
 	cond *sync.Cond
 	hits map[string]int
 
-	crashName string
-	crashAt   int // absolute hit count of crashName at which to die; 0 = not armed
+	crashName  string
+	crashAt    int // absolute hit count of crashName at which to die; 0 = not armed
+	crashDelay time.Duration // the dying goroutine first blocks this long (the others go on), then the process is killed
 
 	holdName  string
 	holdAt    int // absolute hit count of holdName at which to block; 0 = not armed
@@ -61,6 +64,10 @@ func newVerifState() *verifState {
 			k, _ = strconv.Atoi(p[1])
 		}
 		s.crashName, s.crashAt = p[0], k
+		if len(p) > 2 {
+			ms, _ := strconv.Atoi(p[2])
+			s.crashDelay = time.Duration(ms) * time.Millisecond
+		}
 	}
 	if v := os.Getenv("VERIF_HOLD"); v != "" {
 		p := strings.Split(v, ":")
@@ -95,6 +102,13 @@ func verifPoint(name string) {
 	n := s.hits[name]
 	s.cond.Broadcast()
 	if s.crashAt > 0 && name == s.crashName && n == s.crashAt {
+		if d := s.crashDelay; d > 0 {
+			// this goroutine stops here; concurrent goroutines (e.g. the checkpoint purge that
+			// follows a backup) get time to finish the step they are in before the kill
+			s.mu.Unlock()
+			time.Sleep(d)
+			s.mu.Lock()
+		}
 		s.report("DIED %s %d", name, n)
 		syscall.Kill(os.Getpid(), syscall.SIGKILL)
 		s.mu.Unlock()
